@@ -1,4 +1,5 @@
 import RxnModel.Proofs.CompactionSys
+import RxnModel.Generated.Facts
 /-!
 # C18 — compaction never changes what the database contains
 
@@ -79,6 +80,14 @@ theorem compaction_step_keeps_view (s s' : Sys) (a : Compaction.Act) (hi : SysIn
     (hnf : a.isFlush = false) :
     (∀ k, levelsGet s'.L k = levelsGet s.L k) ∧ (∀ p, scanView s'.L p = scanView s.L p) :=
   sys_step_view hi h hnf
+
+/-- **What the model takes from the source as constants (regenerated on every run)**: `dkv.New` builds a level list
+with at least two levels (hypothesis `2 ≤ L.length` of `compact_is_safe`), the level-0 trigger defaults to at least
+one table, `Table.Age()` is the sequence number of the first entry written and `OrderOldToNew` sorts ascending by
+it (the model's `age`/`sortByAge`). -/
+theorem source_constants :
+    2 ≤ Facts.dkvLevelCount ∧ 1 ≤ Facts.dkvDefaultL0Trigger ∧ Facts.c18AgeIsStartSeqNum = 1 ∧
+    Facts.c18StartSeqNumIsFirstEntry = 1 ∧ Facts.c18OrderOldToNewAscending = 1 := by decide
 
 /-! ## The defect D22 (repaired): the picker as it was is outside the family and loses the newest version -/
 
